@@ -54,6 +54,17 @@ CHECKS.update({
          "Sound for race freedom under the Go memory model provided stdlib calls behind stubs (regexp.MustCompile, time, reflect) are goroutine-safe as documented. Native confirmation of a counterexample compares a deep dump of the frozen objects before and after the call (value-changing writes only).", "6 C19"),
 })
 
+CHECKS.update({
+ "C01": ("Query is compared with a reference evaluator written from the documented rules (harness/ref.go, environment passed by value) on the same symbolic inputs: over the path pool, and over generated paths head x <=2 accessor steps x 32 tails (arithmetic, comparisons, methods, filters incl. nested, subscripts), lax and strict: same items in the same order (multiset where object member order is open) and the same error class; predicate check expressions return exactly one of true / false / null.",
+         "The reference evaluator is the trusted oracle; where the rules leave a result open (float remainder values, string->number parsing, keyvalue ids, .size() and subscripts on non-arrays below .** in strict mode, lax exists() after a partial result) it declines and nothing is asserted. Known findings listed under their own labels: null elements dropped by subscripts; `is unknown` swallowing the unknown-variable error. WithTZ / context zone and datetime methods are decided in C17. Quick: documents of width 1 for generated paths, numbers as float64 (representation pairs are C12/C13/C16).", "6 C01"),
+ "C16": ("Numeric methods (.floor .ceiling .abs .double .number .integer .bigint .boolean) on unconstrained symbolic numbers in int64 / float64 / json.Number form against rounding-and-range oracles stated in the solver (RNA rounding, -2^63 <= round(x) < 2^63, int32 range, integrality); every method x every input kind for acceptance, suppressible rejection, lax unwrapping and strict rejection of arrays, .type() names and .size(); string inputs for .boolean() (all documented words in every letter case, and every 2-byte ASCII string), .integer()/.bigint() (decimal text crossing the int32/int64 limits, symbolic digits), .double()/.number(); .decimal(p,s) over precision/scale boundary values with the rounded value and the digit rule (carries included) checked in integer arithmetic; keyvalue() triples, sorted keys, ids equal within / distinct across objects and stable; .string() round trips for booleans and int64.",
+         ".decimal(): values sign*(byte*{1,100}) + {0,.5,.25,.99}; scales -2..2 for the digit rule. keyvalue ids: symbolic addresses under an allocator model in which addresses grow in allocation order (collisions of objects on opposite sides of the base object are outside the claim and cannot be replayed). .string() of floats and string->float values rely on strconv (stdlib).", "6 C16"),
+ "C17": ("The 5 x 6 cast matrix (which casts succeed and to which type, which are `format not recognized`, which fail non-suppressibly without WithTZ), the 5 x 5 comparison matrix (incomparable kinds unknown; zone-less vs zone-aware needs WithTZ), operator duality, transitivity over triples, and cast/compare coherence (a op b == cast(a) op cast(b) for the common type) are executed on datetime strings of all five types with a symbolic digit (day / hour / offset), in the UTC, fixed-offset and America/New_York context zones; .time(p) etc. round fractional seconds (symbolic digits, carries past the minute and midnight) to min(p,6) digits, compared with time.Round.",
+         "time.Parse / time.Date / Format run natively once the symbolic digits have been forked over their small domain (decided by evaluation, not by an SMT call): this is bounded-exhaustive over the grid, and says nothing about strings outside it; which strings parse to which type is time.Parse (stdlib). Quick: 4 fixed offsets; thorough: quarter-hour offsets -12:00..+14:00.", "6 C17"),
+ "C18": ("UnmarshalJSON of all five types on every byte string of length 0..10 (symbolic bytes; time.Parse stubbed as error-or-instant) and on the JSON token kinds: an error, never a panic; a well-formed body between two symbolic delimiter bytes is accepted exactly when both are double quotes; String -> ParseTime, Marshal -> Unmarshal and `.datetime().string()` round trips and the date/timestamp <-> timestamptz commutation with the context zone (UTC, fixed offsets in half-hour steps, America/New_York, Asia/Kolkata; local times that exist in the zone) on a boundary grid of instants (leap day, DST edges, year 1 and 9999) with a symbolic time of day.",
+         "As C17: time.* runs natively on the forked grid values; ISO-8601 shape of String() is implied by the ParseTime round trip only.", "6 C18"),
+})
+
 NA = {}
 
 def main():
